@@ -45,6 +45,8 @@ type Config struct {
 	StopOnViolation  bool
 	NoFD             bool // disable the finite-domain fast path (every query goes to the SMT solver)
 	CrossCheckFD     int  // cross-check every n-th fast-path verdict against the SMT solver (0 = never)
+	Fallback         []string // solvers asked when the primary answers unknown
+	HangIsViolation  bool     // exhausting the step budget is a violation (termination properties)
 }
 
 func (c *Config) denyFn(fn *ssa.Function) bool { return false }
@@ -294,6 +296,7 @@ func (ex *explorer) newInterpreter() (*interpreter, error) {
 		cfg:        ex.cfg,
 		typeCache:  map[string]types.Type{},
 		harnessState: map[string]value{},
+		fallbacks:  map[string]*smt.Solver{},
 	}
 	allow := append(append([]string(nil), defaultInitAllow...), ex.cfg.InitAllow...)
 	i.initOK = func(path string) bool {
@@ -396,6 +399,13 @@ func (ex *explorer) worker(w int) (err error) {
 		return err
 	}
 	defer i.solver.Close()
+	defer func() {
+		for _, fs := range i.fallbacks {
+			if fs != nil {
+				fs.Close()
+			}
+		}
+	}()
 	// package initialisation + setup, concretely
 	i.resetSched()
 	i.path = newPathCtx(i, WorkItem{}, 4_000_000_000)
@@ -439,6 +449,11 @@ func (ex *explorer) worker(w int) (err error) {
 			out, detail = "inconclusive_unsupported", "replay divergence: path ended before its decision prefix was consumed"
 		}
 		switch out {
+		case "inconclusive_budget":
+			if ex.cfg.HangIsViolation {
+				p.violation("hang", "evaluation did not return within the step budget", "", p.model)
+				out = "hang"
+			}
 		case "panic":
 			p.violation("panic", detail, "", p.model)
 		case "deadlock":
@@ -503,6 +518,8 @@ func (ex *explorer) worker(w int) (err error) {
 	r.Stats.FDUnsat += st.FDUnsat
 	r.Stats.FDCrossChecked += st.FDCrossChecked
 	r.Stats.FDMismatch += st.FDMismatch
+	r.Stats.FallbackQueries += st.FallbackQueries
+	r.Stats.FallbackDecided += st.FallbackDecided
 	for k := 0; k < 3; k++ {
 		r.Queries[k] += int64(i.solver.Queries[k])
 	}
